@@ -8,9 +8,11 @@ import (
 	"encoding/json"
 	"fmt"
 	"os"
+	"runtime"
 	"sort"
 	"strings"
 	"sync"
+	"sync/atomic"
 	"time"
 
 	"github.com/syndtr/goleveldb/leveldb"
@@ -143,6 +145,7 @@ func runWorkload(w *wl.Workload) (out *runOut) {
 				out.err = "Close: " + err.Error()
 				return
 			}
+			leveldb.VerifForget(db)
 			out.reopens = append(out.reopens, stor.OpCount())
 			db, err = leveldb.Open(stor, o)
 			if err != nil {
@@ -154,7 +157,14 @@ func runWorkload(w *wl.Workload) (out *runOut) {
 	if err := db.Close(); err != nil {
 		out.err = "final Close: " + err.Error()
 	}
+	leveldb.VerifForget(db)
 	return
+}
+
+// closeDB closes a DB and removes it from the hooks' process-wide tables (see leveldb.VerifForget).
+func closeDB(db *leveldb.DB) {
+	db.Close()
+	leveldb.VerifForget(db)
 }
 
 // checkImage reopens one crash image and evaluates the property; returns "" when it holds.
@@ -177,7 +187,7 @@ func checkImage(w *wl.Workload, batches []*wl.Batch, img *vstor.Stor, crashIdx i
 	if err != nil {
 		return "Open of the crash image fails: " + err.Error()
 	}
-	defer db.Close()
+	defer closeDB(db)
 	got, err := wl.Scan(db)
 	if err != nil {
 		return "scan of the recovered DB fails: " + err.Error()
@@ -407,7 +417,7 @@ func keptOf(w *wl.Workload, batches []*wl.Batch, img *vstor.Stor) ([]int, error)
 	if err != nil {
 		return nil, err
 	}
-	defer db.Close()
+	defer closeDB(db)
 	got, err := wl.Scan(db)
 	if err != nil {
 		return nil, err
@@ -570,6 +580,42 @@ func evalCase(c *caseRef, tries int) string {
 	return ""
 }
 
+// A closed goleveldb DB is kept alive for a second by its mpoolDrain goroutine (it waits for the memory pool with a
+// one-second timeout), and with it the crash image it was opened on.  (What exhausted memory in the thorough tier was
+// something else: the hooks' process-wide verifMinSeqs table kept the session of every DB closed during a table
+// compaction; closeDB/VerifForget remove it.)  As a safety net a monitor raises heapHigh while the heap is large;
+// workers wait for it to drop before taking the next job.
+var heapHigh int32
+
+func heapMonitor() {
+	for {
+		var ms runtime.MemStats
+		runtime.ReadMemStats(&ms)
+		switch {
+		case ms.HeapAlloc > 10<<30:
+			atomic.StoreInt32(&heapHigh, 1)
+		case ms.HeapAlloc < 5<<30:
+			atomic.StoreInt32(&heapHigh, 0)
+		}
+		if os.Getenv("C04_DEBUG") == "heap" {
+			fmt.Fprintf(os.Stderr, "heap alloc=%dMB sys=%dMB objects=%d high=%d goroutines=%d\n", ms.HeapAlloc>>20, ms.HeapSys>>20, ms.HeapObjects, atomic.LoadInt32(&heapHigh), runtime.NumGoroutine())
+		}
+		if atomic.LoadInt32(&heapHigh) != 0 {
+			// the workers are waiting, so nothing allocates and no collection would start by itself
+			time.Sleep(time.Second)
+			runtime.GC()
+			continue
+		}
+		time.Sleep(100 * time.Millisecond)
+	}
+}
+
+func throttle() {
+	for i := 0; i < 400 && atomic.LoadInt32(&heapHigh) != 0; i++ {
+		time.Sleep(50 * time.Millisecond)
+	}
+}
+
 func main() {
 	a := vlib.ParseArgs()
 	res := vlib.NewResult("C04", a.Out, "workloads of marker-carrying batches (single writes, multi-record and oversized batches, transactions, sync/no-sync mix, CompactRange, reopen; tiny buffers; MaxManifestFileSize in {default,1,512}) run once on the checker's storage; for crash points = operation indexes (all indexes around every Sync/SetMeta/Create/Remove/Rename plus a uniform sample) x tail policies {lost, kept, cut, cut+zeros, cut+garbage} x {never-synced files vanish or not} the durable image is reopened with the real Open and compared with the kept-batch oracle; nested: the recovery's own op log is cut again; non-trivial = crash point inside a flush, compaction, manifest rotation or recovery (within 3 ops of a table/manifest Create, Sync, SetMeta or Remove)")
@@ -582,6 +628,17 @@ func main() {
 		}
 		var wr struct {
 			Case caseRef `json:"case"`
+		}
+		if err := json.Unmarshal(b, &wr); err == nil && wr.Case.W == nil && wr.Case.What == "torn-manifest" {
+			res.Eval("replay", true)
+			res.Eval("replay2", true)
+			if m, tc := tornManifestProbe(res, 12000); m != "" {
+				fmt.Println("replay fails:", m)
+				res.Violate(m, tc)
+			} else {
+				fmt.Println("replay passes")
+			}
+			return
 		}
 		if err := json.Unmarshal(b, &wr); err != nil || wr.Case.W == nil {
 			fmt.Println("cannot parse replay:", err)
@@ -616,6 +673,7 @@ func main() {
 		nest bool
 	}
 	jobs := make(chan job, 64)
+	go heapMonitor()
 	var wg sync.WaitGroup
 	var vmu sync.Mutex
 	nviol := 0
@@ -624,6 +682,7 @@ func main() {
 		go func() {
 			defer wg.Done()
 			for j := range jobs {
+				throttle()
 				img := j.out.stor.ImageAt(j.i, vstor.ImageOpts{Policy: j.pol, UnsyncedFilesVanish: j.van, Rand: rnd(j.ps)})
 				m := checkImage(j.w, j.out.batches, img, j.i, j.us)
 				var discard []*vstor.Stor
@@ -740,8 +799,34 @@ func main() {
 			jobs <- job{w: w, out: out, i: i, pol: pol, van: r.Chance(1, 4), ps: r.Uint64(), us: r.Chance(1, 10), nest: r.Chance(1, 12)}
 		}
 	}
+	// directed: journal records ending 0..9 bytes before a 32 KiB block end (see residueRun); crash after every write
+	{
+		r := root.Fork()
+		w, out := residueRun(r)
+		w.Seed = a.Seed*1000 + 999
+		if out.err == "" {
+			res.Count("workloads_residue_directed", 1)
+			for _, b := range out.batches {
+				for _, pol := range []vstor.TailPolicy{vstor.TailKept, vstor.TailCut} {
+					jobs <- job{w: w, out: out, i: b.AckIdx, pol: pol, ps: r.Uint64()}
+				}
+			}
+		} else {
+			res.Count("workloads_residue_directed_errors", 1)
+		}
+	}
 	close(jobs)
 	wg.Wait()
+	// directed: manifest records torn at 32 KiB block boundaries (see mantorn.go)
+	{
+		n := 12000
+		if a.Thorough() {
+			n = 40000
+		}
+		if m, tc := tornManifestProbe(res, n); m != "" {
+			res.Violate(m, tc)
+		}
+	}
 	// (K) dedicated workloads: no reopen, default manifest size (the model has neither)
 	nk, perK := 6, 14
 	if a.Thorough() {
@@ -761,4 +846,10 @@ func main() {
 		kcases = append(kcases, kc...)
 	}
 	res.WriteCases("From GL Require Import Store.Crash Corr.C04Run.", "c04case", "mismatches", kcases, 16)
+	// (K) byte level: journal file bytes of crash images against the model's recover_bytes
+	nb := 16
+	if a.Thorough() {
+		nb = 64
+	}
+	writeByteCases(res, a.Out, kByteCases(root, res, nb, 120000), 16)
 }
